@@ -32,9 +32,9 @@ class VC:
 
 
 def _solve_job(job):
-    oid, text, timeout, seed = job
+    oid, text, timeout, seed, canary = job
     try:
-        r = solve.solve_smt2(text, timeout_s=timeout, seed=seed)
+        r = solve.solve_smt2(text, timeout_s=timeout, seed=seed, use_cvc5=not canary)
     except Exception as exc:  # pragma: no cover
         r = {"status": "unknown", "backend": "none", "reason": "worker exception %s" % exc, "time_s": 0}
     return oid, r
@@ -243,7 +243,8 @@ class Run:
     # ------------------------------------------------------------- discharge
     def discharge(self, workers=None):
         self.gen_lemmas()
-        jobs = [(i, v.smt2, self.timeout, self.seed) for i, v in enumerate(self.vcs)]
+        jobs = [(i, v.smt2, self.timeout if v.kind != "canary" else 6, self.seed, v.kind == "canary")
+                for i, v in enumerate(self.vcs)]
         workers = workers or min(14, max(1, len(jobs)))
         if not jobs:
             return
